@@ -13,6 +13,14 @@ pub fn dxtn_to_image(
     }
     let raw_image = &image.images[mipmap_level];
     let (width, height) = header.mipmap_size(mipmap_level);
+    if width == 0 || height == 0 {
+        return Err(Error::MismatchSizes(
+            mipmap_level,
+            width,
+            height,
+            raw_image.content.len(),
+        ));
+    }
     let size = (width as usize) * (height as usize) * 4;
 
     let decoder: texpresso::Format = image.format.into();
